@@ -513,8 +513,10 @@ ABTU_ret_err static inline int ABTI_mem_alloc_desc(ABTI_local *p_local,
     void *p_desc;
     ABTI_xstream *p_local_xstream = ABTI_local_get_xstream_or_null(p_local);
     if (ABTI_IS_EXT_THREAD_ENABLED && p_local_xstream == NULL) {
-        /* For external threads */
-        int abt_errno = ABTU_malloc(ABTI_MEM_POOL_DESC_SIZE, &p_desc);
+        /* For external threads.  The flag word below lies right after the
+         * ABTI_MEM_POOL_DESC_SIZE bytes handed out, so the whole element must be
+         * allocated. */
+        int abt_errno = ABTU_malloc(ABTI_MEM_POOL_DESC_ELEM_SIZE, &p_desc);
         ABTI_CHECK_ERROR(abt_errno);
         *(uint32_t *)(((char *)p_desc) + ABTI_MEM_POOL_DESC_SIZE) = 1;
         *pp_desc = p_desc;
